@@ -1,3 +1,523 @@
+//! C10 — Every deterministic BBS operation matches the drafts for all inputs (reference-model monitor),
+//! single-threaded and under multi-threaded interleavings.
+
+use crate::api::*;
 use crate::common::*;
-pub fn scenarios(_ctx: &Ctx) -> Vec<Scenario> { vec![] }
-pub fn finish(_ctx: &Ctx) {}
+use crate::refimpl::{self as rf, SuiteId};
+use bls12_381_plus::Scalar;
+use rand::RngCore;
+use serde_json::json;
+use std::collections::{BTreeMap, BTreeSet};
+use std::sync::atomic::{AtomicUsize, Ordering};
+use std::sync::{Barrier, Mutex, OnceLock};
+use zkryptium::utils::message::bbsplus_message::BBSplusMessage;
+use zkryptium::utils::util::bbsplus_utils::hash_to_scalar;
+
+type Bytes = Vec<u8>;
+
+#[derive(Clone, Debug)]
+pub enum Case {
+    KeyGen { ikm: Bytes, info: Option<Bytes>, dst: Option<Bytes> },
+    H2S { msg: Bytes, dst: Bytes },
+    MapMsgs { msgs: Vec<Bytes>, blind_api: bool },
+    Gens { count: usize, api: Option<Bytes> },
+    Sign { sk: Scalar, header: Option<Bytes>, msgs: Vec<Bytes> },
+    BlindSign { sk: Scalar, cwp: Bytes, header: Option<Bytes>, msgs: Vec<Bytes> },
+    Verify { pk: Bytes, sig: Bytes, header: Option<Bytes>, msgs: Vec<Bytes> },
+    ProofVerify { pk: Bytes, proof: Bytes, header: Option<Bytes>, ph: Option<Bytes>, dm: Vec<Bytes>, di: Vec<usize> },
+    VerifyBlindSign { pk: Bytes, sig: Bytes, header: Option<Bytes>, msgs: Vec<Bytes>, cm: Vec<Bytes>, blind: Scalar },
+    BlindProofVerify { pk: Bytes, proof: Bytes, header: Option<Bytes>, ph: Option<Bytes>, l: usize, dm: Vec<Bytes>, dcm: Vec<Bytes>, di: Vec<usize>, dci: Vec<usize> },
+}
+
+impl Case {
+    pub fn kind(&self) -> &'static str {
+        match self {
+            Case::KeyGen { .. } => "key_gen",
+            Case::H2S { .. } => "hash_to_scalar",
+            Case::MapMsgs { .. } => "messages_to_scalar",
+            Case::Gens { .. } => "create_generators",
+            Case::Sign { .. } => "sign",
+            Case::BlindSign { .. } => "blind_sign",
+            Case::Verify { .. } => "verify",
+            Case::ProofVerify { .. } => "proof_verify",
+            Case::VerifyBlindSign { .. } => "verify_blind_sign",
+            Case::BlindProofVerify { .. } => "blind_proof_verify",
+        }
+    }
+    fn describe(&self) -> serde_json::Value {
+        let s = format!("{:?}", self);
+        json!(if s.len() > 1500 { format!("{}...({} chars)", &s[..1500], s.len()) } else { s })
+    }
+}
+
+/// Err(()) = refused / not accepted; Ok(bytes) = output octets (empty for a bare accept)
+type Out = Result<Bytes, ()>;
+
+fn o<'a>(x: &'a Option<Bytes>) -> Option<&'a [u8]> {
+    x.as_deref()
+}
+
+fn run_ref(s: SuiteId, c: &Case) -> Out {
+    let h = |x: &Option<Bytes>| x.clone().unwrap_or_default();
+    match c {
+        Case::KeyGen { ikm, info, dst } => {
+            let sk = rf::key_gen(s, ikm, &h(info), dst.as_deref()).map_err(|_| ())?;
+            Ok([rf::scalar_be(&sk).to_vec(), rf::g2_c(&rf::sk_to_pk(&sk)).to_vec()].concat())
+        }
+        Case::H2S { msg, dst } => rf::hash_to_scalar(s, msg, dst).map(|x| rf::scalar_be(&x).to_vec()).map_err(|_| ()),
+        Case::MapMsgs { msgs, blind_api } => {
+            let api = if *blind_api { s.blind_api_id() } else { s.api_id() };
+            rf::messages_to_scalars(s, msgs, &api).map(|v| v.iter().flat_map(|x| rf::scalar_be(x)).collect()).map_err(|_| ())
+        }
+        Case::Gens { count, api } => Ok(rf::create_generators(s, *count, api.as_deref().unwrap_or(&[])).iter().flat_map(|g| rf::g1_c(g)).collect()),
+        Case::Sign { sk, header, msgs } => rf::sign(s, sk, &rf::sk_to_pk(sk), &h(header), msgs).map(|x| x.to_vec()).map_err(|_| ()),
+        Case::BlindSign { sk, cwp, header, msgs } => rf::blind_sign(s, sk, &rf::sk_to_pk(sk), cwp, &h(header), msgs).map(|x| x.to_vec()).map_err(|_| ()),
+        Case::Verify { pk, sig, header, msgs } => if rf::verify(s, pk, sig, &h(header), msgs) { Ok(vec![]) } else { Err(()) },
+        Case::ProofVerify { pk, proof, header, ph, dm, di } => if rf::proof_verify(s, pk, proof, &h(header), &h(ph), dm, di) { Ok(vec![]) } else { Err(()) },
+        Case::VerifyBlindSign { pk, sig, header, msgs, cm, blind } => if rf::verify_blind_sign(s, pk, sig, &h(header), msgs, cm, blind) { Ok(vec![]) } else { Err(()) },
+        Case::BlindProofVerify { pk, proof, header, ph, l, dm, dcm, di, dci } => {
+            if rf::blind_proof_verify(s, pk, proof, &h(header), &h(ph), *l, dm, dcm, di, dci) { Ok(vec![]) } else { Err(()) }
+        }
+    }
+}
+
+fn run_lib<X: Sx>(ctx: &Ctx, c: &Case, sig: &str) -> (Outcome, Out) {
+    let m = ctx.call(c.kind(), sig, Some(6000), || -> Result<Bytes, String> {
+        let e = |x: zkryptium::errors::Error| format!("{:?}", x);
+        match c {
+            Case::KeyGen { ikm, info, dst } => {
+                let kp = Kp::<X>::generate(ikm, o(info), o(dst)).map_err(e)?;
+                Ok([kp.private_key().to_bytes().to_vec(), kp.public_key().to_bytes().to_vec()].concat())
+            }
+            Case::H2S { msg, dst } => hash_to_scalar::<X::CS>(msg, dst).map(|x| x.to_be_bytes().to_vec()).map_err(e),
+            Case::MapMsgs { msgs, blind_api } => {
+                use zkryptium::bbsplus::ciphersuites::BbsCiphersuite;
+                let api = if *blind_api { <X::CS as BbsCiphersuite>::API_ID_BLIND } else { <X::CS as BbsCiphersuite>::API_ID };
+                // both entry points: the list mapper and the single-message mapper
+                let v = BBSplusMessage::messages_to_scalar::<X::CS>(msgs, api).map_err(e)?;
+                for (k, m) in msgs.iter().enumerate() {
+                    let one = BBSplusMessage::map_message_to_scalar_as_hash::<X::CS>(m, api).map_err(e)?;
+                    if one != v[k] {
+                        return Ok(b"list mapper and single mapper disagree".to_vec());
+                    }
+                }
+                Ok(v.iter().flat_map(|x| x.to_bytes_be()).collect())
+            }
+            Case::Gens { count, api } => {
+                use group::Curve;
+                let g = Generators::create::<X::CS>(*count, o(api));
+                if g.g1_base_point != X::ID.p1() {
+                    return Ok(b"wrong P1".to_vec());
+                }
+                Ok(g.values.iter().flat_map(|p| p.to_affine().to_compressed()).collect())
+            }
+            Case::Sign { sk, header, msgs } => {
+                let (sk, pk) = key_from_scalar(*sk);
+                Sig::<X>::sign(Some(msgs), &sk, &pk, o(header)).map(|s| s.to_bytes().to_vec()).map_err(e)
+            }
+            Case::BlindSign { sk, cwp, header, msgs } => {
+                let (sk, pk) = key_from_scalar(*sk);
+                BSig::<X>::blind_sign(&sk, &pk, if cwp.is_empty() { None } else { Some(cwp) }, o(header), Some(msgs)).map(|s| s.to_bytes().to_vec()).map_err(e)
+            }
+            Case::Verify { pk, sig, header, msgs } => {
+                let pk = BBSplusPublicKey::from_bytes(pk).map_err(e)?;
+                let s = Sig::<X>::from_bytes(sig.as_slice().try_into().map_err(|_| "len".to_string())?).map_err(e)?;
+                s.verify(&pk, Some(msgs), o(header)).map(|_| vec![]).map_err(e)
+            }
+            Case::ProofVerify { pk, proof, header, ph, dm, di } => {
+                let pk = BBSplusPublicKey::from_bytes(pk).map_err(e)?;
+                let p = Pok::<X>::from_bytes(proof).map_err(e)?;
+                p.proof_verify(&pk, Some(dm), Some(di), o(header), o(ph)).map(|_| vec![]).map_err(e)
+            }
+            Case::VerifyBlindSign { pk, sig, header, msgs, cm, blind } => {
+                let pk = BBSplusPublicKey::from_bytes(pk).map_err(e)?;
+                let s = BSig::<X>::from_bytes(sig.as_slice().try_into().map_err(|_| "len".to_string())?).map_err(e)?;
+                let bf = BlindFactor::from_bytes(&blind.to_be_bytes()).map_err(e)?;
+                s.verify_blind_sign(&pk, o(header), Some(msgs), Some(cm), Some(&bf)).map(|_| vec![]).map_err(e)
+            }
+            Case::BlindProofVerify { pk, proof, header, ph, l, dm, dcm, di, dci } => {
+                let pk = BBSplusPublicKey::from_bytes(pk).map_err(e)?;
+                let p = Pok::<X>::from_bytes(proof).map_err(e)?;
+                p.blind_proof_verify(&pk, o(header), o(ph), Some(*l), Some(dm), Some(dcm), Some(di), Some(dci)).map(|_| vec![]).map_err(e)
+            }
+        }
+    });
+    let out = match (&m.outcome, m.value) {
+        (Outcome::Ok, Some(v)) => Ok(v),
+        _ => Err(()),
+    };
+    (m.outcome, out)
+}
+
+fn compare<X: Sx>(ctx: &Ctx, c: &Case, label: &str, expected: &Out, threads: usize) {
+    let sig = format!("{}/{}/{}", name::<X>(), c.kind(), label);
+    ctx.distinct(&sig);
+    let (outcome, got) = run_lib::<X>(ctx, c, &sig);
+    if &got != expected {
+        let what = match (expected, &got) {
+            (Ok(_), Ok(_)) => "output-differs",
+            (Ok(_), Err(_)) => "library-refuses/reference-accepts",
+            (Err(_), Ok(_)) => "library-accepts/reference-refuses",
+            _ => unreachable!(),
+        };
+        let cls = label.split('/').next().unwrap_or("");
+        ctx.violation(
+            &format!("C10:{}/{}/{}{}", what, c.kind(), cls, if threads > 1 { "/threaded" } else { "" }),
+            json!({"case":sig,"threads":threads,"library":format!("{} {}", outcome.short(), got.as_ref().map(|v| hx(v)).unwrap_or_default()),
+                   "reference":expected.as_ref().map(|v| hx(v)).map_err(|_| "refused"),"input":c.describe()}),
+        );
+    }
+}
+
+// ---------------------------------------------------------------- case generation
+
+fn det_cases<X: Sx>(ctx: &Ctx, r: &mut impl RngCore, part: usize) -> Vec<(String, Case)> {
+    let mut v: Vec<(String, Case)> = vec![];
+    let q = ctx.quick();
+    match part {
+        0 => {
+            // key generation: ikm lengths, key_info lengths, key_dst lengths
+            for n in (0..=34).chain([63, 64, 65, 255, 256, 1000]) {
+                v.push((format!("ikm{n}"), Case::KeyGen { ikm: rand_bytes(r, n), info: None, dst: None }));
+            }
+            for n in [0usize, 1, 2, 255, 256, 257, 65535, 65536, 70000] {
+                v.push((format!("info{n}"), Case::KeyGen { ikm: rand_bytes(r, 32), info: Some(rand_bytes(r, n)), dst: None }));
+            }
+            for n in [0usize, 1, 16, 254, 255, 256, 300] {
+                v.push((format!("dst{n}"), Case::KeyGen { ikm: rand_bytes(r, 40), info: Some(rand_bytes(r, 5)), dst: Some(rand_bytes(r, n)) }));
+            }
+            v.push(("dst-default-explicit".into(), Case::KeyGen { ikm: vec![9; 32], info: None, dst: Some([&X::ID.api_id()[..], b"KEYGEN_DST_"].concat()) }));
+        }
+        1 => {
+            for n in (0..=300).step_by(if q { 3 } else { 1 }) {
+                v.push((format!("msg{n}"), Case::H2S { msg: rand_bytes(r, n), dst: [&X::ID.api_id()[..], b"H2S_"].concat() }));
+            }
+            for n in [0usize, 1, 2, 254, 255, 256, 257, 1000] {
+                v.push((format!("dst{n}"), Case::H2S { msg: rand_bytes(r, 17), dst: rand_bytes(r, n) }));
+            }
+            for n in [1000usize, 65535, 65536, 100_000] {
+                v.push((format!("msg{n}"), Case::H2S { msg: rand_bytes(r, n), dst: b"x".to_vec() }));
+            }
+            for k in 0..if q { 6 } else { 40 } {
+                let l = [0usize, 1, 2, 7, 33, 100][k % 6];
+                v.push((format!("map{l}"), Case::MapMsgs { msgs: gen_messages(r, l, k), blind_api: k % 2 == 1 }));
+            }
+        }
+        2 => {
+            // generators: counts x api ids (prefix consistency is implied by equality with the reference for every count)
+            let apis: Vec<(String, Option<Bytes>)> = vec![
+                ("api".into(), Some(X::ID.api_id())),
+                ("blind".into(), Some(X::ID.blind_api_id())),
+                ("blindblind".into(), Some([b"BLIND_".as_slice(), &X::ID.blind_api_id()].concat())),
+                ("empty".into(), Some(vec![])),
+                ("none".into(), None),
+                ("200B".into(), Some(vec![b'a'; 200])),
+                ("other-suite".into(), Some(if X::ID == SuiteId::Sha { SuiteId::Shake.api_id() } else { SuiteId::Sha.api_id() })),
+            ];
+            let counts: Vec<usize> = if q { vec![0, 1, 2, 3, 16, 65] } else { (0..=40).chain([64, 65, 127, 128, 255, 256, 257, 1000]).collect() };
+            for (an, a) in &apis {
+                for &cn in &counts {
+                    v.push((format!("{an}/n{cn}"), Case::Gens { count: cn, api: a.clone() }));
+                }
+            }
+        }
+        3 => {
+            // signing: L classes x header classes
+            let ls: Vec<usize> = if q { vec![0, 1, 2, 3, 10, 33, 257] } else { vec![0, 1, 2, 3, 5, 10, 16, 31, 32, 33, 64, 100, 255, 256, 257, 1000] };
+            for (k, &l) in ls.iter().enumerate() {
+                for hc in 0..if q { 2 } else { 5 } {
+                    let header = match (k + hc) % 7 {
+                        0 => None,
+                        1 => Some(vec![]),
+                        2 => Some(rand_bytes(r, 1)),
+                        3 => Some(rand_bytes(r, 255)),
+                        4 => Some(rand_bytes(r, 256)),
+                        5 => Some(rand_bytes(r, 65535)),
+                        _ => Some(rand_bytes(r, 65536)),
+                    };
+                    v.push((format!("L{l}/hdr{}", header.as_ref().map(|h| h.len() as i64).unwrap_or(-1)),
+                            Case::Sign { sk: crate::c04::rand_scalar(r), header, msgs: gen_messages(r, l, k + hc) }));
+                }
+            }
+        }
+        _ => {}
+    }
+    v
+}
+
+/// honest artefacts (both directions) and sampled mutations, for the verifiers
+fn decision_cases<X: Sx>(ctx: &Ctx, r: &mut impl RngCore, l: usize, m: usize) -> Vec<(String, Case)> {
+    let s = X::ID;
+    let mut v: Vec<(String, Case)> = vec![];
+    let sk = crate::c04::rand_scalar(r);
+    let w = rf::sk_to_pk(&sk);
+    let pk = rf::g2_c(&w).to_vec();
+    let (lsk, lpk) = key_from_scalar(sk);
+    let msgs = gen_messages(r, l, 0);
+    let cm = gen_messages(r, m, 0);
+    let header = Hdr::gen(r, &[7]).as_opt().map(|x| x.to_vec());
+    let ph = Hdr::gen(r, &[9]).as_opt().map(|x| x.to_vec());
+    let hb = header.clone().unwrap_or_default();
+    let pb = ph.clone().unwrap_or_default();
+    let di: Vec<usize> = (0..l).filter(|_| r.next_u32() % 2 == 0).collect();
+    let dm: Vec<Bytes> = di.iter().map(|&i| msgs[i].clone()).collect();
+    let dci: Vec<usize> = (0..m).filter(|_| r.next_u32() % 2 == 0).collect();
+    let dcm: Vec<Bytes> = dci.iter().map(|&j| cm[j].clone()).collect();
+    // library-made artefacts
+    let lsig = Sig::<X>::sign(Some(&msgs), &lsk, &lpk, header.as_deref()).unwrap().to_bytes().to_vec();
+    let lproof = Pok::<X>::proof_gen(&lpk, &lsig, header.as_deref(), ph.as_deref(), Some(&msgs), Some(&di)).unwrap().to_bytes();
+    let (lcom, lbf) = Com::<X>::commit(Some(&cm)).unwrap();
+    let lcwp = lcom.to_bytes();
+    let lblind = rf::octets_to_scalar(&lbf.to_bytes()).unwrap();
+    let lbsig = BSig::<X>::blind_sign(&lsk, &lpk, Some(&lcwp), header.as_deref(), Some(&msgs)).unwrap().to_bytes().to_vec();
+    let lbproof = Pok::<X>::blind_proof_gen(&lpk, &lbsig, header.as_deref(), ph.as_deref(), Some(&msgs), Some(&cm), Some(&di), Some(&dci), Some(&lbf)).unwrap().to_bytes();
+    // reference-made artefacts (own randomness)
+    let rsig = rf::sign(s, &sk, &w, &hb, &msgs).unwrap().to_vec();
+    let rnd: Vec<Scalar> = (0..5 + l - di.len()).map(|_| crate::c04::rand_scalar(r)).collect();
+    let rproof = rf::proof_gen(s, &w, &rsig, &hb, &pb, &msgs, &di, &rnd).unwrap();
+    let rnd: Vec<Scalar> = (0..m + 2).map(|_| crate::c04::rand_scalar(r)).collect();
+    let (rcwp, rblind) = rf::commit(s, &cm, &rnd).unwrap();
+    let rbsig = rf::blind_sign(s, &sk, &w, &rcwp, &hb, &msgs).unwrap().to_vec();
+    let rnd: Vec<Scalar> = (0..5 + l + 1 + m - di.len() - dci.len()).map(|_| crate::c04::rand_scalar(r)).collect();
+    let rbproof = rf::blind_proof_gen(s, &w, &rbsig, &hb, &pb, &msgs, &cm, &di, &dci, &rblind, &rnd).unwrap();
+
+    let mutate = |r: &mut dyn RngCore, b: &Bytes, point_slots: &[usize], scalar_slots: &[usize]| -> Vec<(String, Bytes)> {
+        let mut out: Vec<(String, Bytes)> = vec![("honest".into(), b.clone())];
+        for _ in 0..3 {
+            let mut x = b.clone();
+            let bit = (r.next_u64() % (x.len() as u64 * 8)) as usize;
+            x[bit / 8] ^= 1 << (bit % 8);
+            out.push(("bitflip".into(), x));
+        }
+        for k in [1usize, 7, 31, 32, 33, 64] {
+            let mut x = b.clone();
+            x.extend(vec![0u8; k]);
+            out.push((format!("trailing{k}"), x));
+            if b.len() > k {
+                out.push((format!("truncated{k}"), b[..b.len() - k].to_vec()));
+            }
+        }
+        let mut inf = [0u8; 48];
+        inf[0] = 0xc0;
+        for &pslot in point_slots {
+            let mut x = b.clone();
+            x[pslot..pslot + 48].copy_from_slice(&inf);
+            out.push((format!("identity@{pslot}"), x));
+        }
+        for &ss in scalar_slots {
+            let mut x = b.clone();
+            x[ss..ss + 32].copy_from_slice(&hex::decode("73eda753299d7d483339d80809a1d80553bda402fffe5bfeffffffff00000001").unwrap());
+            out.push((format!("scalar=r@{ss}"), x));
+        }
+        out
+    };
+    // --- verify
+    for (src, sg) in [("lib", &lsig), ("ref", &rsig)] {
+        for (mn, sb) in mutate(r, sg, &[0], &[48]) {
+            v.push((format!("{mn}/{src}-sig"), Case::Verify { pk: pk.clone(), sig: sb, header: header.clone(), msgs: msgs.clone() }));
+        }
+        let mut ez = sg.clone();
+        ez[48..].fill(0);
+        v.push((format!("e=0/{src}-sig"), Case::Verify { pk: pk.clone(), sig: ez, header: header.clone(), msgs: msgs.clone() }));
+        let mut m2 = msgs.clone();
+        m2.push(vec![1]);
+        v.push((format!("extra-msg/{src}-sig"), Case::Verify { pk: pk.clone(), sig: sg.clone(), header: header.clone(), msgs: m2 }));
+        v.push((format!("other-header/{src}-sig"), Case::Verify { pk: pk.clone(), sig: sg.clone(), header: Some(b"zz".to_vec()), msgs: msgs.clone() }));
+        for (mn, pkb) in mutate(r, &pk, &[], &[]) {
+            if mn.starts_with("honest") { continue; }
+            v.push((format!("pk-{mn}/{src}-sig"), Case::Verify { pk: pkb, sig: sg.clone(), header: header.clone(), msgs: msgs.clone() }));
+        }
+        let mut pkinf = vec![0u8; 96];
+        pkinf[0] = 0xc0;
+        v.push((format!("pk-identity/{src}-sig"), Case::Verify { pk: pkinf, sig: sg.clone(), header: header.clone(), msgs: msgs.clone() }));
+    }
+    // --- proof_verify
+    for (src, pf) in [("lib", &lproof), ("ref", &rproof)] {
+        let u = l - di.len();
+        let sslots: Vec<usize> = (0..4 + u).map(|k| 144 + 32 * k).collect();
+        for (mn, pb_) in mutate(r, pf, &[0, 48, 96], &sslots[..2.min(sslots.len())]) {
+            // zero response scalars are outside the decision-equality domain (DESIGN.md section 4)
+            if rf::octets_to_proof(&pb_).map(|p| p.has_zero_scalar()).unwrap_or(false) { continue; }
+            v.push((format!("{mn}/{src}-proof"), Case::ProofVerify { pk: pk.clone(), proof: pb_, header: header.clone(), ph: ph.clone(), dm: dm.clone(), di: di.clone() }));
+        }
+        v.push((format!("other-ph/{src}-proof"), Case::ProofVerify { pk: pk.clone(), proof: pf.clone(), header: header.clone(), ph: Some(b"q".to_vec()), dm: dm.clone(), di: di.clone() }));
+        if !di.is_empty() {
+            let mut di2 = di.clone();
+            *di2.last_mut().unwrap() = l; // out of range, still ascending
+            v.push((format!("index-out-of-range/{src}-proof"), Case::ProofVerify { pk: pk.clone(), proof: pf.clone(), header: header.clone(), ph: ph.clone(), dm: dm.clone(), di: di2 }));
+            v.push((format!("missing-message/{src}-proof"), Case::ProofVerify { pk: pk.clone(), proof: pf.clone(), header: header.clone(), ph: ph.clone(), dm: dm[..dm.len() - 1].to_vec(), di: di.clone() }));
+        }
+    }
+    // --- blind_sign (commitment validation) : byte equality when both accept
+    for (src, cw) in [("lib", &lcwp), ("ref", &rcwp)] {
+        for (mn, cb) in mutate(r, cw, &[], &[48]) {
+            v.push((format!("{mn}/{src}-commitment"), Case::BlindSign { sk, cwp: cb, header: header.clone(), msgs: msgs.clone() }));
+        }
+    }
+    v.push(("no-commitment".into(), Case::BlindSign { sk, cwp: vec![], header: header.clone(), msgs: msgs.clone() }));
+    // --- verify_blind_sign
+    for (src, bs, bl) in [("lib", &lbsig, lblind), ("ref", &rbsig, rblind)] {
+        for (mn, sb) in mutate(r, bs, &[0], &[48]) {
+            v.push((format!("{mn}/{src}-blindsig"), Case::VerifyBlindSign { pk: pk.clone(), sig: sb, header: header.clone(), msgs: msgs.clone(), cm: cm.clone(), blind: bl }));
+        }
+        v.push((format!("other-blind/{src}-blindsig"), Case::VerifyBlindSign { pk: pk.clone(), sig: bs.clone(), header: header.clone(), msgs: msgs.clone(), cm: cm.clone(), blind: bl + Scalar::ONE }));
+        if m > 0 {
+            v.push((format!("missing-committed/{src}-blindsig"), Case::VerifyBlindSign { pk: pk.clone(), sig: bs.clone(), header: header.clone(), msgs: msgs.clone(), cm: cm[..m - 1].to_vec(), blind: bl }));
+        }
+    }
+    // --- blind_proof_verify
+    for (src, pf) in [("lib", &lbproof), ("ref", &rbproof)] {
+        for (mn, pb_) in mutate(r, pf, &[0, 48, 96], &[144]) {
+            if rf::octets_to_proof(&pb_).map(|p| p.has_zero_scalar()).unwrap_or(false) { continue; }
+            v.push((format!("{mn}/{src}-blindproof"), Case::BlindProofVerify { pk: pk.clone(), proof: pb_, header: header.clone(), ph: ph.clone(), l, dm: dm.clone(), dcm: dcm.clone(), di: di.clone(), dci: dci.clone() }));
+        }
+        for ll in [0usize, l + 1, l + m + 1, l + m + 2, 1 << 40] {
+            if ll != l {
+                v.push((format!("L={ll}/{src}-blindproof"), Case::BlindProofVerify { pk: pk.clone(), proof: pf.clone(), header: header.clone(), ph: ph.clone(), l: ll, dm: dm.clone(), dcm: dcm.clone(), di: di.clone(), dci: dci.clone() }));
+            }
+        }
+        // re-labelling of a committed message as signer message (ascending lists kept)
+        if let Some((&j, cmj)) = dci.last().zip(dcm.last()) {
+            let mut di2 = di.clone();
+            let mut dm2 = dm.clone();
+            di2.push(l + 1 + j);
+            dm2.push(cmj.clone());
+            v.push((format!("relabel/{src}-blindproof"), Case::BlindProofVerify { pk: pk.clone(), proof: pf.clone(), header: header.clone(), ph: ph.clone(), l, dm: dm2, dcm: dcm[..dcm.len() - 1].to_vec(), di: di2, dci: dci[..dci.len() - 1].to_vec() }));
+        }
+    }
+    let _ = ctx;
+    v
+}
+
+// ---------------------------------------------------------------- scenarios
+
+fn single<X: Sx>(ctx: &Ctx, idx: u64, part: usize) {
+    let mut r = ctx.rng("c10", idx);
+    for (label, c) in det_cases::<X>(ctx, &mut r, part) {
+        let exp = run_ref(X::ID, &c);
+        compare::<X>(ctx, &c, &label, &exp, 1);
+        if label.ends_with("0") {
+            ctx.sample(json!({"suite":name::<X>(),"kind":c.kind(),"label":label,"reference":exp.as_ref().map(|v| hx(v)).map_err(|_| "refused")}));
+        }
+    }
+}
+
+fn decisions<X: Sx>(ctx: &Ctx, idx: u64, l: usize, m: usize) {
+    let mut r = ctx.rng("c10d", idx);
+    for (label, c) in decision_cases::<X>(ctx, &mut r, l, m) {
+        let exp = run_ref(X::ID, &c);
+        compare::<X>(ctx, &c, &format!("{label}/L{l}M{m}"), &exp, 1);
+    }
+}
+
+static OVERLAPS: OnceLock<Mutex<BTreeSet<(String, String)>>> = OnceLock::new();
+static ACTIVE: OnceLock<Mutex<BTreeMap<&'static str, usize>>> = OnceLock::new();
+static OPS_THREADED: AtomicUsize = AtomicUsize::new(0);
+
+/// The same case list executed by T threads in shuffled order; every output is compared with the
+/// single-threaded reference result; the set of concurrently active operation-kind pairs is recorded.
+fn threaded<X: Sx>(ctx: &Ctx, idx: u64, threads: usize) {
+    let mut r = ctx.rng("c10t", idx);
+    let mut cases: Vec<(String, Case)> = vec![];
+    for part in 0..4 {
+        let mut c = det_cases::<X>(ctx, &mut r, part);
+        // keep the interleaving workload light: drop the largest inputs
+        c.retain(|(_, c)| match c {
+            Case::Gens { count, .. } => *count <= 65,
+            Case::Sign { msgs, header, .. } => msgs.len() <= 33 && header.as_ref().map(|h| h.len()).unwrap_or(0) < 1000,
+            Case::H2S { msg, .. } => msg.len() <= 300,
+            Case::KeyGen { info, .. } => info.as_ref().map(|i| i.len()).unwrap_or(0) < 1000,
+            _ => true,
+        });
+        let keep = if ctx.quick() { 12 } else { 60 };
+        while c.len() > keep {
+            let k = rand_range(&mut r, c.len());
+            c.swap_remove(k);
+        }
+        cases.extend(c);
+    }
+    cases.extend(decision_cases::<X>(ctx, &mut r, 3, 2).into_iter().filter(|(l, _)| l.starts_with("honest") || l.starts_with("bitflip") || l.starts_with("identity") || l.starts_with("trailing1/")));
+    let expected: Vec<Out> = cases.iter().map(|(_, c)| run_ref(X::ID, c)).collect();
+    let barrier = Barrier::new(threads);
+    let scn = current_scenario();
+    let overlaps = OVERLAPS.get_or_init(|| Mutex::new(BTreeSet::new()));
+    let active = ACTIVE.get_or_init(|| Mutex::new(BTreeMap::new()));
+    std::thread::scope(|sc| {
+        for t in 0..threads {
+            let (cases, expected, barrier, scn) = (&cases, &expected, &barrier, &scn);
+            let mut tr = ctx.rng("c10t-thread", idx * 100 + t as u64);
+            sc.spawn(move || {
+                set_scenario(scn);
+                let mut order: Vec<usize> = (0..cases.len()).collect();
+                for i in (1..order.len()).rev() {
+                    let j = rand_range(&mut tr, i + 1);
+                    order.swap(i, j);
+                }
+                barrier.wait();
+                for &k in &order {
+                    let (label, c) = &cases[k];
+                    // harness-side delay BETWEEN calls (the library has no internal suspension points)
+                    let spin = rand_range(&mut tr, 200);
+                    let t0 = std::time::Instant::now();
+                    while t0.elapsed().as_micros() < spin as u128 {
+                        std::hint::spin_loop();
+                    }
+                    {
+                        let mut a = active.lock().unwrap();
+                        let mut ov = overlaps.lock().unwrap();
+                        for (other, n) in a.iter() {
+                            if *n > 0 {
+                                let (x, y) = if *other <= c.kind() { (*other, c.kind()) } else { (c.kind(), *other) };
+                                ov.insert((x.to_string(), y.to_string()));
+                            }
+                        }
+                        *a.entry(c.kind()).or_insert(0) += 1;
+                    }
+                    compare::<X>(ctx, c, &format!("{label}/T{threads}"), &expected[k], threads);
+                    *active.lock().unwrap().get_mut(c.kind()).unwrap() -= 1;
+                    OPS_THREADED.fetch_add(1, Ordering::Relaxed);
+                }
+            });
+        }
+    });
+}
+
+pub fn scenarios(ctx: &Ctx) -> Vec<Scenario> {
+    let mut v = Vec::new();
+    for part in 0..4usize {
+        for rep in 0..ctx.t(1u64, 3u64) {
+            let i = part as u64 * 10 + rep;
+            v.push(scenario(format!("det/sha/part{part}"), move |c| single::<Sha>(c, i, part)));
+            v.push(scenario(format!("det/shake/part{part}"), move |c| single::<Shake>(c, i + 5, part)));
+        }
+    }
+    let lm: &[(usize, usize)] = ctx.t(&[(0, 0), (1, 1), (3, 2), (5, 0), (2, 4)][..], &[(0, 0), (1, 0), (0, 1), (1, 1), (3, 2), (5, 0), (2, 4), (8, 3), (16, 5), (33, 1)][..]);
+    for rep in 0..ctx.t(1u64, 4u64) {
+        for (k, &(l, m)) in lm.iter().enumerate() {
+            let i = 100 + rep * 20 + k as u64;
+            v.push(scenario(format!("decisions/sha/L{l}M{m}"), move |c| decisions::<Sha>(c, i, l, m)));
+            v.push(scenario(format!("decisions/shake/L{l}M{m}"), move |c| decisions::<Shake>(c, i + 10, l, m)));
+        }
+    }
+    // schedules: 2 / 8 / 16 threads, three repetitions
+    for (k, &t) in [2usize, 8, 16].iter().enumerate() {
+        for rep in 0..ctx.t(1u64, 3u64) {
+            let i = 500 + k as u64 * 10 + rep;
+            v.push(scenario(format!("threaded/sha/T{t}"), move |c| threaded::<Sha>(c, i, t)));
+            v.push(scenario(format!("threaded/shake/T{t}"), move |c| threaded::<Shake>(c, i + 5, t)));
+        }
+    }
+    v
+}
+
+pub fn finish(ctx: &Ctx) {
+    let ov: Vec<String> = OVERLAPS.get().map(|m| m.lock().unwrap().iter().map(|(a, b)| format!("{a}||{b}")).collect()).unwrap_or_default();
+    let n = ov.len();
+    ctx.set_extra("threaded_operations", json!(OPS_THREADED.load(Ordering::Relaxed)));
+    ctx.set_extra("distinct_concurrent_operation_kind_pairs", json!(n));
+    ctx.set_extra("concurrent_pairs_observed", json!(ov));
+    ctx.count("concurrent_kind_pairs", n as u64);
+    if ctx.only_scenario.is_none() && n < 20 {
+        ctx.inconclusive(&format!("schedule part observed only {n} distinct concurrently active operation-kind pairs (< 20)"));
+    }
+}
